@@ -78,6 +78,7 @@ pub async fn scenario(owned: bool, events: Vec<Ev>) -> Obs {
                 }
                 Ev::SessionEnd => true,
                 Ev::X3 => !owned && model.live(1),
+                Ev::CloseLink(_) | Ev::AttachReuse(_) => false,
             };
         if !enabled {
             break;
@@ -243,6 +244,7 @@ pub async fn scenario(owned: bool, events: Vec<Ev>) -> Obs {
                 drop(tx_shared[0].take());
                 model.abort(1);
             }
+            Ev::CloseLink(_) | Ev::AttachReuse(_) => {}
             Ev::SessionEnd => {
                 match timeout(T, session.end()).await {
                     Ok(r) => obs.trace.push(format!("   session.end() -> {:?}", r.map_err(|e| format!("{e:?}")))),
